@@ -1,19 +1,22 @@
 #!/usr/bin/env python3
 """Summary of the stored behaviour-preserving refactorings (equiv/*/meta.json): quiet / alarming per round."""
-import json, os, sys
+import json, os, re
 V = os.path.dirname(os.path.dirname(os.path.abspath(__file__)))
-r1 = r2 = q1 = q2 = 0
+rounds = {}
 alarms = []
 for n in sorted(os.listdir(os.path.join(V, 'equiv'))):
-    m = json.load(open(os.path.join(V, 'equiv', n, 'meta.json')))
-    two = '-e2r' in n
+    mp = os.path.join(V, 'equiv', n, 'meta.json')
+    if not os.path.isfile(mp):
+        continue
+    m = json.load(open(mp))
+    g = re.search(r'-e(\d)r\d+$', n)
+    rnd = int(g.group(1)) if g else 1
     quiet = not m.get('alarms')
-    if two:
-        r2 += 1; q2 += quiet
-    else:
-        r1 += 1; q1 += quiet
+    tot, q = rounds.get(rnd, (0, 0))
+    rounds[rnd] = (tot + 1, q + (1 if quiet else 0))
     if not quiet:
         alarms.append((n, m.get('alarm_keys', [])))
-print('round 1: %d of %d quiet; round 2: %d of %d quiet' % (q1, r1, q2, r2))
+print('; '.join('round %d: %d of %d quiet' % (r, q, t) for r, (t, q) in sorted(rounds.items())))
+print('all rounds: %d of %d quiet' % (sum(q for t, q in rounds.values()), sum(t for t, q in rounds.values())))
 for n, ks in alarms:
     print(n, ks[:4])
